@@ -210,3 +210,43 @@ pub fn keq4(a: [u64; 4], b: [u64; 4]) -> bool {
 pub fn keq8(a: [u64; 8], b: [u64; 8]) -> bool {
     a[0] == b[0] && a[1] == b[1] && a[2] == b[2] && a[3] == b[3] && a[4] == b[4] && a[5] == b[5] && a[6] == b[6] && a[7] == b[7]
 }
+
+// ---- matrices: bit view of the flat column-major array, lattice constructors ----
+pub trait MBits: Copy {
+    fn mbits(&self) -> [u64; 16];
+}
+macro_rules! mbits_impl {
+    ($($t:ident: [$($i:tt)*]),*) => {$(
+        impl MBits for $t {
+            #[inline(always)]
+            fn mbits(&self) -> [u64; 16] {
+                let a = self.to_cols_array();
+                let mut w = [0u64; 16];
+                $( w[$i] = a[$i].to_bits() as u64; )*
+                w
+            }
+        }
+    )*};
+}
+mbits_impl!(Mat2: [0 1 2 3], DMat2: [0 1 2 3], Mat3: [0 1 2 3 4 5 6 7 8], Mat3A: [0 1 2 3 4 5 6 7 8], DMat3: [0 1 2 3 4 5 6 7 8],
+            Mat4: [0 1 2 3 4 5 6 7 8 9 10 11 12 13 14 15], DMat4: [0 1 2 3 4 5 6 7 8 9 10 11 12 13 14 15],
+            Affine2: [0 1 2 3 4 5], DAffine2: [0 1 2 3 4 5], Affine3A: [0 1 2 3 4 5 6 7 8 9 10 11], DAffine3: [0 1 2 3 4 5 6 7 8 9 10 11]);
+#[inline(always)]
+pub fn msame<T: MBits>(a: T, b: T) -> bool {
+    let (x, y) = (a.mbits(), b.mbits());
+    x[0] == y[0] && x[1] == y[1] && x[2] == y[2] && x[3] == y[3] && x[4] == y[4] && x[5] == y[5] && x[6] == y[6] && x[7] == y[7]
+        && x[8] == y[8] && x[9] == y[9] && x[10] == y[10] && x[11] == y[11] && x[12] == y[12] && x[13] == y[13] && x[14] == y[14] && x[15] == y[15]
+}
+/// lattice-valued Vec3A / Mat3A with SYMBOLIC hidden lanes
+#[inline(always)]
+pub fn vec3a_of(v: [f32; 3]) -> Vec3A {
+    Vec3A::from_vec4(Vec4::new(v[0], v[1], v[2], vk::any()))
+}
+#[inline(always)]
+pub fn mat3a_of(a: [f32; 9]) -> Mat3A {
+    Mat3A::from_cols(vec3a_of([a[0], a[1], a[2]]), vec3a_of([a[3], a[4], a[5]]), vec3a_of([a[6], a[7], a[8]]))
+}
+#[inline(always)]
+pub fn affine3a_of(a: [f32; 12]) -> Affine3A {
+    Affine3A { matrix3: mat3a_of([a[0], a[1], a[2], a[3], a[4], a[5], a[6], a[7], a[8]]), translation: vec3a_of([a[9], a[10], a[11]]) }
+}
